@@ -16,7 +16,7 @@ POOL = ["ed2", "ed3", "ed4", "edp1", "ec-b", "ec-c"]
 OUTSIDERS = ["ed7", "edp3"]
 RSA_POOL = ["rsa-2048-a", "rsa-2048-b512"]
 STATES = ["absent", "absent", "valid", "valid", "valid", "misfiled", "flipped", "edited", "double", "sublayout_unauth",
-          "unsigned", "wrong_name_inside"]
+          "unsigned", "wrong_name_inside", "cosigned_broken_own", "cosigned_broken_own"]
 
 
 def judge(case, obs, res):
@@ -97,6 +97,12 @@ def shard(binpath, seed, sh, n):
                     other = rng.choice(OUTSIDERS if k not in OUTSIDERS else [x for x in OUTSIDERS if x != k])
                     f["signed_by"] = other
                     reqs.append((doc, [k, other], "builder"))
+                elif state == "cosigned_broken_own":
+                    # filed under k; k's own signature entry is corrupted, another pool key (possibly a functionary of
+                    # this very step, possibly with a valid link of its own) has validly co-signed the same file
+                    other = rng.choice([x for x in pool if x != k])
+                    f["signed_by"] = other
+                    reqs.append((doc, [k, other], "builder"))
                 elif state == "sublayout_unauth":
                     sub = scen.mk_layout(W, [], [], [])
                     reqs.append((sub, [k], "new"))
@@ -110,7 +116,7 @@ def shard(binpath, seed, sh, n):
     for sc in scs:
         lw = wires[sc["base"]]
         files = {}
-        per_step = {p["name"]: {"count": 0, "states": {}} for p in sc["plan"]}
+        per_step = {p["name"]: {"count": 0, "states": {}, "keys": set()} for p in sc["plan"]}
         auth_of = {p["name"]: p["auth"] for p in sc["plan"]}
         for f in sc["files"]:
             w = copy.deepcopy(wires[f["req"]])
@@ -122,6 +128,12 @@ def shard(binpath, seed, sh, n):
                 w["signatures"][0]["sig"] = bytes(b).hex()
             elif st == "edited":
                 w["signed"]["byproducts"]["stdout"] = "tampered"
+            elif st == "cosigned_broken_own":
+                for sg in w["signatures"]:
+                    if sg["keyid"] == W.kid(k):
+                        b = bytearray(bytes.fromhex(sg["sig"]))
+                        b[len(b) // 2] ^= 0x01
+                        sg["sig"] = bytes(b).hex()
             files[f"{f['step']}.{W.pfx(k)}.link"] = scen.dumps(w)
             authorised = k in auth_of[f["step"]] and k in sc["table"]
             counts = authorised and st in ("valid", "double", "wrong_name_inside")
@@ -131,7 +143,13 @@ def shard(binpath, seed, sh, n):
                     # an empty sub-layout signed by an authorised key is legitimate evidence (C15's subject)
                     counts = True
             if counts:
-                per_step[f["step"]]["count"] += 1
+                per_step[f["step"]]["keys"].add(k)
+            if st == "cosigned_broken_own":
+                # most permissive reading: the co-signer's valid signature may count for the CO-SIGNER (never for k)
+                o = f["signed_by"]
+                if o in auth_of[f["step"]] and o in sc["table"]:
+                    per_step[f["step"]]["keys"].add(o)
+            per_step[f["step"]]["count"] = len(per_step[f["step"]]["keys"])
             per_step[f["step"]]["states"][k] = st + ("" if authorised else "(unauth)")
         short = []
         for p in sc["plan"]:
@@ -192,6 +210,6 @@ def main(ctx):
              "directory not empty; distinct by SHA-256 of (layout, directory)",
         assumptions=["ground truth of who validly signed what is by construction"],
         required=["positive_control_accepted", "expect:reject", "observed:reject", "state:valid(unauth)", "state:misfiled",
-                  "state:flipped", "state:edited", "state:double", "decided_by_authorisation_rule", "threshold:0",
+                  "state:flipped", "state:edited", "state:double", "state:cosigned_broken_own", "decided_by_authorisation_rule", "threshold:0",
                   "threshold:2", "threshold:3"],
         min_evals=500)
